@@ -104,10 +104,46 @@ def derived(case):
 
 
 def rand_case(rng, site, maxlen=7, ndim=1, **kw):
+    if maxlen >= 5 and rng.random() < 0.2:
+        return focus_case(rng, site, maxlen, ndim, **kw)
     r = rng.randint(1, maxlen)
     c = rng.randint(1, maxlen) if rng.random() < 0.75 else r
     case = {"site": site, "ndim": ndim, "s1": rand_series(rng, r, ndim), "s2": rand_series(rng, c, ndim),
             "settings": rand_settings(rng, r, c, **kw)}
+    return derived(case)
+
+
+def focus_lengths(rng, maxlen):
+    r = rng.randint(4, maxlen)
+    return r, rng.randint(max(4, r - 2), min(maxlen, r + 2))
+
+
+def focus_settings(rng, r, c, **kw):
+    st = rand_settings(rng, r, c, **kw)
+    st["window"] = rng.randint(1, 3)
+    st["max_step"] = None
+    st["max_length_diff"] = None
+    if kw.get("allow_psi", True):
+        x = rng.random()
+        if x < 0.25:
+            st["psi"] = rng.randint(1, 3)
+        elif x < 0.9:
+            st["psi"] = [rng.choice([0, rng.randint(1, 3)]) for _ in range(4)]
+            if not any(st["psi"]):
+                st["psi"][rng.choice([1, 3])] = rng.randint(1, 3)
+        else:
+            st["psi"] = None
+    return st
+
+
+def focus_case(rng, site, maxlen, ndim, **kw):
+    """Narrow window on long series (the two-row buffer of the distance kernels is compacted and shifts from
+    row to row) combined with relaxed ends/begins; the options that make most cells infinite stay off.
+    The uniform stream of rand_case reaches this region in under 1% of its cases (fourth seeding round)."""
+    r, c = focus_lengths(rng, maxlen)
+    st = focus_settings(rng, r, c, **kw)
+    case = {"site": site, "ndim": ndim, "s1": rand_series(rng, r, ndim), "s2": rand_series(rng, c, ndim),
+            "settings": st, "stream": "narrow-window-psi"}
     return derived(case)
 
 
